@@ -111,7 +111,7 @@ func abRun(in *abInput, sink *CaseSink) {
 	sl := skiplist.NewWithConfig(cfg)
 	ab := sl.GetAccesBarrier()
 	sessID[ab.VerifSession()] = 0
-	sch := NewSched(nt, skiplist.VerifPtAcqLoaded, skiplist.VerifPtRelZero, skiplist.VerifPtRelLatched, skiplist.VerifPtRelQueued,
+	sch := NewSched(nt, skiplist.VerifPtAcqLoaded, skiplist.VerifPtAcqBackoff, skiplist.VerifPtRelZero, skiplist.VerifPtRelLatched, skiplist.VerifPtRelQueued,
 		skiplist.VerifPtCleanLoop, skiplist.VerifPtCleanEnd, skiplist.VerifPtCleanReset, skiplist.VerifPtFlushLoaded,
 		skiplist.VerifPtFlushSwapped, skiplist.VerifPtFlushAdded)
 	skiplist.VerifYieldHook = sch.Hook
